@@ -1,5 +1,6 @@
 """C11 -- change detection is quiescent and chunk-precise."""
-import vlib, mgrcheck, jobcheck
+import os, re
+import vlib, mgrcheck, jobcheck, emcmp
 from gen import mgr
 
 PROP = 'C11'
@@ -7,10 +8,86 @@ ASPECTS = {'valid', 'values', 'members'}
 JOB_ASPECTS = {'nomiss', 'precise'}
 
 
+def chunkcfg_scripts(rng, n):
+    """sets of chunk-size functions (minimum only, maximum only, both, exact; applying to all or to some archetypes;
+    consistent and contradictory), a default size, then creations in several archetypes"""
+    out = []
+    for i in range(n):
+        r = rng.fork('cfg%d' % i)
+        default = r.pick([1, 2, 3, 4, 8, 16, 1024])
+        lines = ['maxthreads 16', 'threads 1', 'reg 0', 'reg 1', 'reg 2', 'verchunk %d' % default]
+        for _ in range(r.range(1, 3)):
+            mn = r.pick([0, 0, 2, 4, 8, 16]); mx = r.pick([0, 0, 2, 4, 8, 16, 32])
+            if r.chance(1, 4):
+                mx = mn
+            pals = sorted(set(r.pick([0, 1, 2]) for _ in range(r.range(0, 2))))
+            lines.append(('chunkfn %d %d %s' % (mn, mx, ' '.join(map(str, pals)))).rstrip())
+        lines.append('update')
+        for _ in range(r.range(2, 5)):
+            cs = sorted(set(r.pick([0, 1, 2]) for _ in range(r.range(1, 3))))
+            lines.append('create 0 ' + ' '.join(map(str, cs)))
+        out.append(('cfg%d' % i, lines))
+    return out
+
+
+def chunkcfg_check(rng, n):
+    """tier A for the configured version-chunk size: computed from the property text alone"""
+    scripts = chunkcfg_scripts(rng, n)
+    rn = mgrcheck.Runner(PROP)
+    if rn.err:
+        return dict(what='build error: %s' % rn.err, script='', lines=[]), 0, []
+    impl, model, spec = rn.run(scripts, tag='chunkcfg')
+    div = emcmp.compare(impl, model, ['A'])
+    sd = dict(scripts)
+    for name, blocks in impl:
+        lines = sd[name]
+        default = next(int(l.split()[1]) for l in lines if l.startswith('verchunk'))
+        fns = [(int(t[1]), int(t[2]), set(map(int, t[3:]))) for t in (l.split() for l in lines) if t[0] == 'chunkfn']
+        def expect(cs):
+            ap = [(mn, mx) for mn, mx, fm in fns if fm <= set(cs)]
+            lo = max([mn for mn, mx in ap] + [0])
+            his = [mx for mn, mx in ap if mx > 0]
+            hi = min(his) if his else 0
+            if hi and hi < lo:
+                return None
+            c = max(default, lo)
+            return min(c, hi) if hi else c
+        for i, b in enumerate(blocks):
+            t = b['op'].split()
+            creating = t and t[0] == 'create'
+            cs = [int(x) for x in t[2:]] if creating else []
+            if b['crash']:
+                if (creating and expect(cs) is None) or expect([]) is None:
+                    break          # the contradictory configuration was rejected
+                return dict(what='creating an archetype under a consistent chunk-size configuration failed: %s' % b['crash'], script=name, lines=lines[:i + 1]), len(scripts), div
+            if creating:
+                if expect(cs) is None:
+                    return dict(what='a contradictory chunk-size configuration for components %s was accepted' % cs, script=name, lines=lines[:i + 1]), len(scripts), div
+                for al in b['tags'].get('A', []):
+                    f = dict(x.split('=', 1) for x in al.split()[2:])
+                    m = [] if f['m'] == '-' else [int(x) for x in f['m'].split(',')]
+                    if m == cs and int(f['cs']) != expect(cs):
+                        return dict(what='archetype %s has version-chunk size %s, the configuration implies %d (default %d clamped by the largest minimum and the smallest maximum of the applying functions)' % (cs, f['cs'], expect(cs), default),
+                                    script=name, lines=lines[:i + 1]), len(scripts), div
+    return None, len(scripts), div
+
+
 def run(tier, seed, replay=None):
     rng = vlib.Rng(seed)
     n, maxops = (200, 80) if tier == 'quick' else (3000, 300)
     prof = mgr.profile(PROP)
     scripts = mgr.corpus(PROP) + [('g%d' % i, mgr.gen_script(rng.fork(PROP + '-%d' % i), maxops, prof)) for i in range(n)]
-    return mgrcheck.run_check(PROP, scripts, ASPECTS, replay=replay, assumptions=['component payloads are modelled as one integer per instance', 'user callbacks only read what they are handed', 'extraArchetypeFilterCheck / extraChunkFilterCheck are the defaults'],
+    res = mgrcheck.run_check(PROP, scripts, ASPECTS, replay=replay, assumptions=['component payloads are modelled as one integer per instance', 'user callbacks only read what they are handed', 'extraArchetypeFilterCheck / extraChunkFilterCheck are the defaults'],
                               extra_tier_a=lambda impl, sc: jobcheck.tier_a_jobs(impl, sc, JOB_ASPECTS))
+    if replay or res['violations']:
+        return res
+    fail, ncfg, div = chunkcfg_check(rng, 150 if tier == 'quick' else 2000)
+    res['coverage']['chunk_config_scripts'] = ncfg
+    if fail:
+        p = vlib.write_replay(PROP, 'failing_script.txt', '# %s\n# script %s\n%s\n' % (fail['what'], fail['script'], '\n'.join(fail['lines'])))
+        res['violations'].append((p, ''))
+    elif div:
+        d = div[0]
+        p = vlib.write_replay(PROP, 'broken_obligation.txt', 'correspondence Manager model vs implementation diverges on the configured chunk size: script %s op %d (%s)\n  impl : %s\n  model: %s\n' % (d['script'], d['opn'], d['op'], d['impl'], d['model']))
+        res['violations'].append((p, 'no-failing-input-found'))
+    return res
